@@ -255,7 +255,8 @@ class C24(Check):
             "Routines are judged only inside their precondition (others: no crash). Non-trivial: a square/rectangular "
             "matrix of size >=3 that is singular, needs a row exchange or has non-real entries; distinct by matrix.")
     assumptions = ["fractions.Fraction Gaussian elimination (pbt/linref.py) is the reference",
-                   "a library exception declines a sub-case; a crash/sanitizer report is a violation",
+                   "a library exception declines a sub-case; a crash/sanitizer report is a violation; a SYMENGINE_ASSERT firing on an input constructed inside the routine's precondition is a violation (outside it: skipped as assert_seen)",
+                   "known findings are excluded by construction only while their tag is active (Check.tag_active)",
                    "QR and Cholesky factors containing square roots are compared numerically (mpmath, 40/60 digits, 1e-30)",
                    "un-pivoted routines (LU, fraction_free_LU, fraction_free_LDU, LU_solve, inverse_LU, fraction-free "
                    "eliminations) are judged only on matrices whose leading principal minors are all non-zero; LDL / cholesky / "
